@@ -75,9 +75,9 @@ func genLayout(t *rapid.T, label string) Layout {
 }
 
 var (
-	elementPool = []string{"kcal", "fat", "prot", "carb", "salt", "вода", "糖", "vit c", "fibre/sol"}
+	elementPool = []string{"kcal", "fat", "prot", "carb", "salt", "вода", "糖", "vit c", "fibre/sol", "Kcal", "FAT", "Вода"}
 	recipePool  = []string{"bread/rye", "bread/white", "egg/boiled", "soup/veg", "soup/meat", "mix", "mix/a b", "сандвич/яйце", "r/1", "r/2", "r/3", "z/last", "a/first", "dish/x/100g", "dish/y/100g", "pie"}
-	foreignPool = []string{"coffee/cup", "tea", "candy/bar", "water/0.5l", "ядки"}
+	foreignPool = []string{"coffee/cup", "tea", "candy/bar", "water/0.5l", "ядки", "Tea", "Coffee/cup"}
 	exactQty    = []string{"1", "2", "3", "0.5", "0.25", "1.5", "-1", "-2", "0", "10", "100", "-0.75", "4", "8"}
 	decimalQty  = []string{"0.2", "3.3", "1.1", "-0.1", "259", "0.40", "13.6", "4.29", "1e2", "-7.5", "0.07"}
 )
@@ -168,6 +168,7 @@ type LogOpts struct {
 	Layout    string
 	ExactOnly bool
 	Sorted    bool
+	Base      time.Time // first day of the window (zero: baseDay)
 }
 
 // genLog draws a log: day blocks in any order, repeated dates, empty days,
@@ -180,6 +181,9 @@ func genLog(t *rapid.T, book []Block, o LogOpts) []Block {
 	if o.Window <= 0 {
 		o.Window = 10
 	}
+	if o.Base.IsZero() {
+		o.Base = baseDay
+	}
 	n := rapid.IntRange(o.MinDays, o.MaxDays).Draw(t, "n_days")
 	days := make([]Block, n)
 	var foods []string
@@ -191,7 +195,7 @@ func genLog(t *rapid.T, book []Block, o LogOpts) []Block {
 		if o.Sorted {
 			off = i * o.Window / (n + 1)
 		}
-		days[i].Head = baseDay.AddDate(0, 0, off).Format(o.Layout)
+		days[i].Head = o.Base.AddDate(0, 0, off).Format(o.Layout)
 		k := rapid.IntRange(0, 5).Draw(t, fmt.Sprintf("d%d_items", i))
 		for j := 0; j < k; j++ {
 			label := fmt.Sprintf("d%d_i%d", i, j)
